@@ -244,6 +244,23 @@ func tasks18(tier string) []task18 {
 			}})
 		}
 	}
+	// (2b) very long fractions (time.Parse accepts any length and keeps nine digits)
+	ts = append(ts, task18{"long-fractions", func(c *fw.Ctx) {
+		n := 0
+		for l := 11; l <= 45; l++ {
+			for _, pat := range []string{"9", "0", "1", "5", "98765432109876543210", "00000000012345678901234567890", "12345678", "499999999", "500000000"} {
+				fr := strings.Repeat(pat, l/len(pat)+1)[:l]
+				for _, sep := range []string{".", ","} {
+					for _, z := range []string{"Z", "+05:30", "-00:01"} {
+						checkString(c, "2006-01-02T13:37:42"+sep+fr+z)
+						checkString(c, "1969-12-31T23:59:59"+sep+fr+z)
+						n += 2
+					}
+				}
+			}
+		}
+		c.Sample(map[string]interface{}{"kind": "long fractions", "digits": "11..45", "strings": n})
+	}})
 	// (3) format -> parse identity through the codec's own Write
 	ts = append(ts, task18{"format-parse-identity", func(c *fw.Ctx) {
 		bases := []time.Time{time.Date(2021, 3, 4, 5, 6, 7, 0, time.UTC), time.Date(1, 1, 1, 0, 0, 0, 0, time.UTC), time.Date(9999, 12, 31, 23, 59, 59, 0, time.UTC),
@@ -347,7 +364,7 @@ func init() {
 			if tier == "thorough" {
 				a, l = "{0,1,9}", 12
 			}
-			return fmt.Sprintf("exhaustive grammar product pushed through the public path (string field decoded into time.Time / null.Time by codecs from Schema.Codec): year {0000,0001,1969,1970,2024,9999} × month 01-12 × day {01,28,29,30,31} × hour {00,12,23} × minute,second {00,30,59} × 7 fraction shapes × 11 zones; every fraction digit string over %s of length 1..%d × {'.',','} × 11 zones × 2 base times; all date-only strings of the grid; format→parse identity over 6 base times × 8 offsets × 40 nanosecond values (time.Time and null.Time); every truncation and single-character deletion/duplication/substitution (alphabet \"09-:T.,Z+x /\") of 6 valid timestamps; non-trivial = the standard library accepts the string (time.Parse RFC3339 / 2006-01-02) so instant and offset were compared; all strings are checked for panics", a, l)
+			return fmt.Sprintf("exhaustive grammar product pushed through the public path (string field decoded into time.Time / null.Time by codecs from Schema.Codec): year {0000,0001,1969,1970,2024,9999} × month 01-12 × day {01,28,29,30,31} × hour {00,12,23} × minute,second {00,30,59} × 7 fraction shapes × 11 zones; every fraction digit string over %s of length 1..%d × {'.',','} × 11 zones × 2 base times; 9 digit patterns stretched to 11..45 fraction digits; all date-only strings of the grid; format→parse identity over 6 base times × 8 offsets × 40 nanosecond values (time.Time and null.Time); every truncation and single-character deletion/duplication/substitution (alphabet \"09-:T.,Z+x /\") of 6 valid timestamps; non-trivial = the standard library accepts the string (time.Parse RFC3339 / 2006-01-02) so instant and offset were compared; all strings are checked for panics", a, l)
 		},
 		Assumptions: []string{
 			"time.Parse(time.RFC3339, s) of the toolchain is the oracle: the claim is made only for strings it accepts",
